@@ -526,6 +526,9 @@ func variants() []variant {
 		{name: "xtab", format: "xtab", flags: []string{"--xtab"}, domain: domXTAB(" "), ps: " "},
 		{name: "xtab-right", format: "xtab", flags: []string{"--xtab", "--xvright"}, domain: domXTAB(" "), ps: " "},
 		{name: "xtab-ps", format: "xtab", flags: []string{"--xtab", "--ps", "colon"}, domain: domXTAB(":"), ps: ":"},
+		// multi-character pair separators (the reader must strip whole separators, not a character set)
+		{name: "xtab-multips", format: "xtab", flags: []string{"--xtab", "--ps", ": "}, domain: domXTAB(": "), ps: ": "},
+		{name: "xtab-multips2", format: "xtab", flags: []string{"--xtab", "--ps", ";:"}, domain: domXTAB(";:"), ps: ";:"},
 		// PPRINT
 		{name: "pprint", format: "pprint", flags: []string{"--pprint"}, domain: domPPRINT, fs: " ", rs: "\n"},
 		{name: "pprint-right", format: "pprint", flags: []string{"--pprint", "--right"}, domain: domPPRINT, fs: " ", rs: "\n"},
